@@ -200,8 +200,8 @@ def check_text_renderer(m, which, doc, fails):
         return False
     need = []
     import re
-    # the list renderer re-indents with str.splitlines(), which also cuts at these separators: search piecewise
-    seps = re.compile("[\n\r\x0b\x0c\x1c\x1d\x1e\x85\u2028\u2029]")
+    # the renderers re-indent the lines of a leaf (a line ends at a line feed and nowhere else): search line by line
+    seps = re.compile("\n")
     for kind, raw in leaves(toks, which):
         if kind in ("text",):
             t = raw.replace("|", "\\|") if which == "rst" else raw
@@ -233,9 +233,9 @@ def _missing_without_marker(md, ast_md, doc, which):
     need = []
     for kind, raw in leaves(toks, which):
         if kind == "text":
-            need += [(kind, p.strip()) for p in raw.replace("|", "\\|").splitlines() if p.strip()]
+            need += [(kind, p.strip()) for p in raw.replace("|", "\\|").split("\n") if p.strip()]
         elif kind in ("codespan", "block_code"):
-            need += [(kind, p.strip()) for p in raw.splitlines() if p.strip()]
+            need += [(kind, p.strip()) for p in raw.split("\n") if p.strip()]
     return find_in_order(out, need) is not None
 
 
